@@ -386,6 +386,19 @@ func (db *DB) Merge() error {
 		}
 
 		f.rwManager.Close()
+
+		if db.ActiveFile.fileID == int64(pendingMergeFId) {
+			// The file just removed was the active one and none of its
+			// records had to be rewritten, so no new active file took its
+			// place: start a fresh one, or the following commits would go
+			// to the removed file and be lost at the next Open.
+			db.ActiveFile.rwManager.Close()
+			db.MaxFileID++
+			if err := db.setActiveFile(); err != nil {
+				db.isMerging = false
+				return err
+			}
+		}
 	}
 
 	return nil
